@@ -80,3 +80,34 @@ def run_utils(res, tier, binp, which=("tandem", "queue", "legacysort")):
         "the heap-sort fallback of the legacy sort (32 nested partitions) is checked in the model only",
     ]
     return total
+
+
+def run_ctrlpoints(res, tier, binp):
+    """ControlPoints.tla: the 'active control point' lookups (binary search + adjustment = declarative lookup, by TLC) replayed on
+    the real functions for every strictly ordered list and query time."""
+    pid = os.getpid()
+    cfgp = os.path.join(common.OUT, "MC_ControlPoints_%s_%d.cfg" % (tier, pid))
+    times = "{0, 10, 20, 30, 40, 50, 60, 70}" if tier == "quick" else "{0, 10, 20, 30, 40, 50, 60, 70, 80, 90, 100}"
+    with open(cfgp, "w") as f:
+        f.write("CONSTANTS\n  MaxLen = %d\n  Times = %s\nINIT Init\nNEXT Next\nINVARIANT Agree\nINVARIANT Printer\nCHECK_DEADLOCK FALSE\n" % (8 if tier == "quick" else 11, times))
+    r = common.run_tlc("MC_ControlPoints", cfgp, workers=4, timeout=3600, name="MC_ControlPoints_%s" % tier)
+    res.add_tlc(r)
+    os.remove(cfgp)
+    if not r["ok"]:
+        res.violation("TLC: the control point lookup (binary search + adjustment) is not the declarative lookup: %s" % (r["violated"] or "a property"),
+                      {"kind": "tlc", "log_tail": common.tail_nonreplay(r["text"], 60)})
+        os.remove(r["log"])
+        return
+    scen = os.path.join(common.OUT, "ctrlpoints_%s_%d.ndjson" % (tier, pid))
+    common.extract_replay(r["log"], scen)
+    os.remove(r["log"])
+    outp = scen + ".res.json"
+    p = common.run_harness(binp, ["ctrlpoints-replay", scen, outp])
+    log(p.stdout.strip().splitlines()[-1])
+    out = json.load(open(outp))
+    for f in (scen, outp):
+        os.remove(f)
+    res.cov["traces_validated_against_impl"] += out["scenarios"]
+    res.cov["control_point_lookups"] = out["checks"]
+    for rec in out["records"][:6]:
+        res.violation("%s: points at %s, time %s: expected %s observed %s" % (rec["what"], rec["times"], rec["query"], rec["expected"], rec["observed"]), {"kind": "ctrlpoints", "record": rec})
